@@ -985,10 +985,12 @@ class CircuitSerializer(serializer.Serializer):
                 p = arg_func_langs.float_arg_from_proto(
                     operation_proto.noisechannel.depolarizingchannel.probability
                 )
-                if not isinstance(p, float):
+                if not isinstance(p, (int, float)):
                     raise ValueError(
                         f"Depolarizing noise probability {p} cannot be symbol or None"
                     )  # pragma: nocover
+                # An integral probability (0.0 or 1.0) comes back from the proto as an int.
+                p = float(p)
                 num_qubits = operation_proto.noisechannel.depolarizingchannel.num_qubits
                 if num_qubits <= 0:
                     raise ValueError(
